@@ -1,6 +1,6 @@
 (* DedupeProofs2.v — C08_rank: the stable sorts of `partition`, applied from the last priority to
    the first, produce the lexicographic order of the priority list (ties by report order) when
-   top/bottom occur only in the last position; K9 witness otherwise. *)
+   the code sorts by: the list cut after its first top/bottom (K9 repaired by /repo 7054be1). *)
 From Coq Require Import Permutation Sorted.
 From FV Require Import Base SortLib DedupeModel DedupeProofs.
 
@@ -110,6 +110,24 @@ Proof.
       eapply StronglySorted_impl; [|exact Hs']. intros a b _ _ H. apply lex_lt_cons; auto.
 Qed.
 
+(* the list the code sorts by, [decisive ps], has top/bottom at most last and reads lexicographically like ps *)
+Lemma decisive_tb_last ps : tb_last (decisive ps).
+Proof.
+  induction ps as [|p ps IH]; intros i q Hn Hq; cbn [decisive] in *.
+  - destruct i; discriminate.
+  - destruct (is_tb p) eqn:Hp.
+    + destruct i as [|i]; [reflexivity|]. destruct i; discriminate.
+    + destruct i as [|i]; cbn [nth_error] in Hn.
+      * injection Hn as <-. congruence.
+      * cbn [length]. f_equal. eapply IH; eauto.
+Qed.
+
+Lemma lex_lt_decisive ps a b : lex_lt (decisive ps) a b <-> lex_lt ps a b.
+Proof.
+  induction ps as [|p ps IH]; cbn [decisive]; [tauto|].
+  destruct p; cbn [is_tb lex_lt]; try tauto.
+Qed.
+
 (* ------------------------------------------------------------------ C08_rank *)
 Definition rank_spec (c : dcfg) (glen : N) (ms kept dropped : list meta) (order : list (nat * sub)) : Prop :=
   Permutation order (indexed (subgroups c (survivors c glen ms))) /\
@@ -120,12 +138,14 @@ Definition rank_spec (c : dcfg) (glen : N) (ms kept dropped : list meta) (order 
   dropped = concat (skipn quota droppable) /\
   kept = concat (forced_kept ++ firstn quota droppable).
 
-Lemma c08_rank c glen ms kept dropped : partition c glen ms = Ok (kept, dropped) -> tb_last (prio c) ->
+Lemma c08_rank c glen ms kept dropped : partition c glen ms = Ok (kept, dropped) ->
   exists order, rank_spec c glen ms kept dropped order.
 Proof.
-  intros H Htb. destruct (partition_anatomy _ _ _ _ _ H) as (sorted & An).
-  destruct (sort_all_order _ _ _ Htb (an_sorted _ _ _ _ _ _ An)) as (order & Hm & Hp & Hs).
-  exists order. split; [exact Hp|]. split; [exact Hs|]. cbn zeta. rewrite Hm. split; apply An.
+  intros H. destruct (partition_anatomy _ _ _ _ _ H) as (sorted & An).
+  destruct (sort_all_order _ _ _ (decisive_tb_last (prio c)) (an_sorted _ _ _ _ _ _ An)) as (order & Hm & Hp & Hs).
+  exists order. split; [exact Hp|]. split.
+  - eapply StronglySorted_impl; [|exact Hs]. intros a b _ _ Hab. apply lex_lt_decisive, Hab.
+  - cbn zeta. rewrite Hm. split; apply An.
 Qed.
 
 Lemma rank_order_unique c glen ms k1 d1 k2 d2 o1 o2 :
@@ -147,20 +167,13 @@ Definition k9_cfg : dcfg :=
 (* report order a, b, c; created in the order c, b, a *)
 Definition k9_group : list meta := [k9_file 97 10 30; k9_file 98 11 20; k9_file 99 12 10].
 
-Lemma c08_k9_witness :
-  ~ tb_last (prio k9_cfg) /\
-  exists kept dropped, partition k9_cfg 4 k9_group = Ok (kept, dropped) /\
-    ~ exists order, rank_spec k9_cfg 4 k9_group kept dropped order.
+(* K9 was: `--priority top --priority newest` kept a (newest first, then reversed).  Since 7054be1 `top` sees the
+   original order: c is kept, b and a are dropped - the lexicographic reading. *)
+Lemma c08_k9_regression :
+  partition k9_cfg 4 k9_group = Ok ([k9_file 99 12 10], [k9_file 98 11 20; k9_file 97 10 30]) /\
+  exists order, rank_spec k9_cfg 4 k9_group [k9_file 99 12 10] [k9_file 98 11 20; k9_file 97 10 30] order.
 Proof.
-  split.
-  - intros H. specialize (H 0 Top eq_refl eq_refl). cbn in H. discriminate.
-  - eexists _, _. split; [vm_compute; reflexivity|].
-    intros (order & Hp & Hs & Hd & _).
-    assert (E : order = rev (indexed (subgroups k9_cfg (survivors k9_cfg 4 k9_group)))).
-    { eapply (sorted_perm_unique (lex_lt (prio k9_cfg))); eauto.
-      - apply lex_lt_asym.
-      - cbn [prio k9_cfg lex_lt].
-        apply (StronglySorted_rev (fun a b : nat * sub => fst a < fst b)), indexed_sorted.
-      - eapply perm_trans; [exact Hp|apply Permutation_rev]. }
-    subst order. vm_compute in Hd. discriminate Hd.
+  assert (H : partition k9_cfg 4 k9_group = Ok ([k9_file 99 12 10], [k9_file 98 11 20; k9_file 97 10 30]))
+    by (vm_compute; reflexivity).
+  split; [exact H|]. eapply c08_rank, H.
 Qed.
